@@ -964,3 +964,133 @@ Section Enclosure.
     repeat split; lra.
   Qed.
 End Enclosure.
+
+(** * Single-number shape: pixel size = longest span / n; pixel count along that side *)
+
+Lemma ceil_maybe_int_eq y tol (n : Z) : y == inject_Z n -> Qceiling (maybe_int y tol) = n.
+Proof.
+  intros E. destruct (maybe_int_spec y tol) as [M|(z & M & H1 & H2 & H3 & H4)]; rewrite M.
+  - rewrite E. apply Qceiling_Z.
+  - rewrite Qceiling_Z. rewrite E in H3, H4.
+    assert (inject_Z z < inject_Z n + 1) as A by lra.
+    assert (inject_Z n - 1 < inject_Z z) as C by lra.
+    rewrite <- inj1, <- inject_Z_plus, <- Zlt_Qlt in A.
+    unfold Qminus in C. rewrite <- inj1, <- inject_Z_opp, <- inject_Z_plus, <- Zlt_Qlt in C. lia.
+Qed.
+
+Lemma snap_grid_none_count x0 x1 rs tol tx c (n : Z) :
+  snap_grid x0 x1 rs None tol = Ok (tx, c) -> (1 <= n)%Z ->
+  (x1 - x0) / Qabs rs == inject_Z n -> c = n.
+Proof.
+  intros H Hn E. pose proof (snap_grid_ok_inv _ _ _ _ _ _ H) as [Hr _].
+  unfold snap_grid in H. destruct (Qltb 0 rs) eqn:E0.
+  - apply Qltb_true in E0. assert (Ea : Qabs rs == rs) by (apply Qabs_pos; lra).
+    assert (E' : (x1 - x0) / rs == inject_Z n) by (rewrite <- Ea; exact E).
+    rewrite (ceil_maybe_int_eq _ tol n E') in H. injection H as _ <-. lia.
+  - apply Qltb_false in E0.
+    assert (Hneg : rs < 0) by (destruct (Qlt_le_dec rs 0); [assumption|exfalso; apply Hr; lra]).
+    assert (Ea : Qabs rs == - rs) by (apply Qabs_neg; lra).
+    assert (E' : (x1 - x0) / - rs == inject_Z n) by (rewrite <- Ea; exact E).
+    destruct (Qeq_bool rs 0); cbn [negb guard bind] in H; [discriminate|].
+    rewrite (ceil_maybe_int_eq _ tol n E') in H. injection H as _ <-. lia.
+Qed.
+
+Lemma longest_res_cases B n :
+  valid_box B -> (0 < n)%Z ->
+  0 < longest_res B n /\
+  (span_y B < span_x B -> longest_res B n == span_x B / inject_Z n) /\
+  (span_x B <= span_y B -> longest_res B n == span_y B / inject_Z n).
+Proof.
+  intros [Vx Vy] Hn. pose proof (inject_Z_pos n Hn) as Pn.
+  assert (Sx : 0 < span_x B) by (unfold span_x; lra).
+  assert (Sy : 0 < span_y B) by (unfold span_y; lra).
+  assert (Dx : 0 < span_x B / inject_Z n) by (apply Qlt_shift_div_l; lra).
+  assert (Dy : 0 < span_y B / inject_Z n) by (apply Qlt_shift_div_l; lra).
+  assert (Qd : span_x B == (span_x B / span_y B) * span_y B) by (field; lra).
+  unfold longest_res. destruct (Qltb 1 (span_x B / span_y B)) eqn:E.
+  - apply Qltb_true in E. set (q := span_x B / span_y B) in *.
+    split; [exact Dx|]. split; [reflexivity|]. intros C. exfalso. nra.
+  - apply Qltb_false in E. set (q := span_x B / span_y B) in *.
+    split; [exact Dy|]. split; [intros C; exfalso; nra|reflexivity].
+Qed.
+
+(** extent of a grid = pixel count * pixel size (per axis) *)
+Lemma grid_extent B snap rx ry tol g :
+  grid_props B snap rx ry tol g ->
+  g_right g == g_left g + inject_Z (g_nx g) * px g /\
+  g_top g == g_bottom g + inject_Z (g_ny g) * py g.
+Proof.
+  intros (_ & _ & _ & _ & PX & PY). unfold axis_props in PX, PY. cbv zeta in PX, PY.
+  destruct PX as (_ & _ & _ & _ & _ & _ & _ & _ & X8 & _). destruct PY as (_ & _ & _ & _ & _ & _ & _ & _ & Y8 & _).
+  split; assumption.
+Qed.
+
+Lemma count_bounds lo hi x0 x1 a tol (c n : Z) :
+  0 < a -> 0 <= tol -> tol < 1 # 2 -> (1 <= n)%Z ->
+  x1 - x0 == inject_Z n * a -> hi == lo + inject_Z c * a ->
+  lo <= x0 + tol * a -> x0 - a < lo -> x1 - tol * a <= hi -> (hi < x1 + a \/ c = 1%Z) ->
+  (n <= c <= n + 1)%Z.
+Proof.
+  intros Ha Ht Ht2 Hn Es Eh L1 L2 H1 H2.
+  set (C := inject_Z c) in *. set (N := inject_Z n) in *.
+  assert (K1 : (N - 1) * a < C * a) by nra.
+  assert (K1' : N - 1 < C) by nra.
+  assert (G1 : (n - 1 < c)%Z).
+  { rewrite Zlt_Qlt. unfold Z.sub. rewrite inject_Z_plus, inject_Z_opp, inj1. fold N C. lra. }
+  destruct H2 as [H2|H2]; [|lia].
+  assert (K2 : C * a < (N + 2) * a) by nra.
+  assert (K2' : C < N + 2) by nra.
+  assert (G2 : (c < n + 2)%Z).
+  { rewrite Zlt_Qlt. rewrite inject_Z_plus. fold N C. assert (inject_Z 2 == 2) by reflexivity. lra. }
+  lia.
+Qed.
+
+(** pixel count along the longest side of the footprint box *)
+Definition longest_count (B : bbox) (g : gbox) : Z :=
+  if Qltb (span_y B) (span_x B) then g_nx g else g_ny g.
+
+Lemma cog_shape_n s dst du B fit rq n tight anc tol rr g :
+  compute_output_geobox s dst du B fit rq (Some (ShapeN n)) tight anc tol rr = Ok (ONew g) ->
+  valid_box B -> 0 <= tol -> (0 < n)%Z ->
+  0 < aa (g_aff g) /\ ae (g_aff g) == - aa (g_aff g) /\
+  (span_y B < span_x B -> aa (g_aff g) == span_x B / inject_Z n) /\
+  (span_x B <= span_y B -> aa (g_aff g) == span_y B / inject_Z n) /\
+  (tol < 1 # 2 -> (n <= longest_count B g <= n + 1)%Z) /\
+  (forall na, norm_anchor anc = Ok na -> snap_of tight na = None -> longest_count B g = n).
+Proof.
+  intros H V Ht Hn.
+  destruct (cog_grid _ _ _ _ _ _ _ _ _ _ _ _ H I V Ht) as (na & rx & ry & Ha & C & P & (_ & -> & ->)).
+  destruct (longest_res_cases B n V Hn) as (L0 & L1 & L2).
+  pose proof (grid_extent _ _ _ _ _ _ P) as [EX EY].
+  destruct (grid_props_facts _ _ _ _ _ _ P) as (A1 & A2 & _ & _ & _ & PX & PY & CV & SN & _).
+  destruct CV as (C1 & C2 & C3 & C4). destruct SN as (S1 & S2 & S3 & S4).
+  pose proof (inject_Z_pos n Hn) as Pn. pose proof V as [Vx Vy].
+  assert (Epx : px g == longest_res B n) by (unfold px; rewrite A1; apply Qabs_pos; lra).
+  assert (Epy : py g == longest_res B n) by (unfold py; rewrite A2, Qabs_opp; apply Qabs_pos; lra).
+  split; [rewrite A1; exact L0|]. split; [rewrite A1, A2; reflexivity|].
+  split; [intros Hc; rewrite A1; apply L1; exact Hc|].
+  split; [intros Hc; rewrite A1; apply L2; exact Hc|].
+  split.
+  - intros Ht2. unfold longest_count. destruct (Qltb (span_y B) (span_x B)) eqn:E.
+    + apply Qltb_true in E. pose proof (L1 E) as R.
+      apply (count_bounds (g_left g) (g_right g) (bl B) (br B) (px g) tol); try assumption; try lia.
+      rewrite Epx, R. unfold span_x. field. lra.
+    + apply Qltb_false in E. pose proof (L2 E) as R.
+      apply (count_bounds (g_bottom g) (g_top g) (bb B) (bt B) (py g) tol); try assumption; try lia.
+      rewrite Epy, R. unfold span_y. field. lra.
+  - intros na' Ha' Hs. rewrite Ha in Ha'. injection Ha' as <-.
+    apply cog_new_inv in H. destruct H as (r & _ & H2).
+    rewrite from_bbox_shapeN, Ha in H2. cbn [bind] in H2.
+    apply bind_ok in H2. destruct H2 as (u1 & _ & H2).
+    apply bind_ok in H2. destruct H2 as (u2 & _ & H2).
+    apply build_inv in H2. destruct H2 as (offx & nx & offy & ny & H1 & H2 & ->).
+    rewrite Hs in H1, H2. simpl option_map in H1, H2.
+    unfold longest_count. cbn [g_nx g_ny].
+    destruct (Qltb (span_y B) (span_x B)) eqn:E.
+    + apply Qltb_true in E. pose proof (L1 E) as R.
+      apply (snap_grid_none_count _ _ _ _ _ _ n H1); [lia|].
+      rewrite Qabs_pos by lra. rewrite R. unfold span_x. field. split; lra.
+    + apply Qltb_false in E. pose proof (L2 E) as R.
+      apply (snap_grid_none_count _ _ _ _ _ _ n H2); [lia|].
+      rewrite Qabs_opp, Qabs_pos by lra. rewrite R. unfold span_y. field. split; lra.
+Qed.
